@@ -148,6 +148,38 @@ let subset_of (t : string) (n : int) : z list option =
 
 let rows_of (v : vah) : z = va_row_cnt !v
 
+(* ---- L2 ledger mode: the resource model (coq/Mem.v) follows the same script ---- *)
+let ledger = ref false
+let lst : mst ref = ref (mst0 None)
+let lobj : (int, positive option) Hashtbl.t = Hashtbl.create 64
+let lva : (int, positive option) Hashtbl.t = Hashtbl.create 64
+exception LFault of string
+let rec nat_of_int n = if n <= 0 then O else S (nat_of_int (n - 1))
+let rec int_of_nat = function O -> 0 | S n -> 1 + int_of_nat n
+let lrun : 'a. 'a m -> 'a = fun m ->
+  match m !lst with
+  | Val (a, s') -> lst := s'; a
+  | Flt f -> raise (LFault (match f with NullDeref -> "null-dereference" | UseAfterFree -> "use-after-free" | BadFree -> "invalid-free" | OutOfBounds -> "out-of-bounds"))
+let ledger_line (tok : string array) : bool =
+  let h i = int_of_string tok.(i) in
+  let getp t i = try Hashtbl.find t (h i) with Not_found -> None in
+  match tok.(0) with
+  | "obj" | "objs" ->
+    let (st, p) = lrun (obj_build (z_of_int (h 2)) (nat_of_int (h 3))) in
+    Hashtbl.replace lobj (h 1) p; add (Printf.sprintf "%d %s" (int_of_z st) (if p = None then "null" else "set")); true
+  | "ocopy" ->
+    let (st, p) = lrun (obj_copy_m (getp lobj 2)) in Hashtbl.replace lobj (h 1) p; add (string_of_int (int_of_z st)); true
+  | "odel" -> lrun (obj_destroy (getp lobj 1)); Hashtbl.remove lobj (h 1); add "0"; true
+  | "va" when h 2 = -2 ->
+    let (st, p) = lrun (va_create_plain_m (getp lobj 3)) in Hashtbl.replace lva (h 1) p; add (string_of_int (int_of_z st)); true
+  | "vaget" ->
+    let (st, p) = lrun (va_get_values_plain_m (getp lva 2)) in Hashtbl.replace lobj (h 1) p; add (string_of_int (int_of_z st)); true
+  | "vadel" -> lrun (va_destroy (getp lva 1)); Hashtbl.remove lva (h 1); add "0"; true
+  | "allocfail" -> lst := { !lst with mfail = Some (nat_of_int (int_of_nat (!lst).mallocs + h 1)) }; add "0"; true
+  | "nallocs" -> add (string_of_int (int_of_nat (!lst).mallocs)); true
+  | "nlive" -> add (string_of_int (PositiveMap.cardinal (!lst).mlive |> int_of_nat)); true
+  | _ -> false
+
 let run_line (lineno : int) (tok : string array) =
   let op = tok.(0) in
   let ntok = Array.length tok in
@@ -166,7 +198,9 @@ let run_line (lineno : int) (tok : string array) =
       (* the end-of-table marker is consumed by the call that reports it *)
       if int_of_z e = int_of_z sBDF_TABLEEND then s.rest <- (match s.rest with _ :: _ :: _ :: r -> r | _ -> []);
       st (int_of_z e) in
+  if !ledger && (try ledger_line tok with LFault w -> add ("FAULT " ^ w); true) then add "\n" else begin
   (match op with
+   | "ledger" -> ledger := true; lst := mst0 None; Hashtbl.reset lobj; Hashtbl.reset lva; st 0
    | "obj" | "objs" ->
      let n = h 3 in
      let elems = List.init n (fun i -> unhex tok.(4 + i)) in
@@ -404,7 +438,7 @@ let run_line (lineno : int) (tok : string array) =
    | "allocs" | "live" -> ()
    | "noise" -> st 0
    | _ -> raise (Bad ("unknown op " ^ op)));
-  add "\n"
+  add "\n" end
 
 let strict = ref false
 let status_ops = ["obj"; "objs"; "ocopy"; "va"; "vaget"; "mdnew"; "mdadd"; "mdaddstr"; "mdaddint"; "mdrm"; "mdget"; "mddflt";
@@ -424,7 +458,7 @@ let () =
        let line = input_line ic in
        incr lineno;
        if String.length line >= 5 && String.sub line 0 5 = "case " then begin
-         reset (); dead := false; strict := false;
+         reset (); dead := false; strict := false; ledger := false;
          print_string (Buffer.contents b); Buffer.clear b;
          print_string (line ^ "\n")
        end else begin
